@@ -442,7 +442,7 @@ def validate(chk):
             layers.append({'kind': kind, 'hex': chk.hexdict(chk.conv.to_dict(val, full), full), 'annotations': ann})
         case = {'op': 'artifact', 'layers': layers, 'nonce': t + 1000 * chk.seed, 'request': req}
 
-        def py(it, spec=spec, req=req, g=g):
+        def py(it, spec=spec, req=req, g=g, layers=layers):
             builder = a.new_builder(it)
             digs = []
             for i, (kind, d, ann) in enumerate(spec):
@@ -450,6 +450,9 @@ def validate(chk):
                 av = layer_annotations(a, it, kind, i)
                 it.run_body(a.add[kind], [ref_to(builder), msg, av])
                 digs.append(builder.f[0].f[2][-1][2])
+                # concrete run: pin every digest to a number that is shared exactly by layers with equal bytes
+                first = min(j for j in range(i + 1) if layers[j]['hex'] == layers[i]['hex'])
+                it.ctx.assume(digs[-1] == z3.BitVecVal(100 + first, 64))
             art = it.run_body(a.build, [builder]).f[0]
             # concrete digests: the model's equalities are decided by the (now concrete) blobs
             d = digs[req] if req < len(digs) else z3.BitVecVal(0, 64)
